@@ -43,7 +43,10 @@ CHECK = Check(
           "iterator scripts incl. undefined LoopCtl values), Set and SetWithBuffer (sources: every scalar kind / string / []byte in "
           "value and pointer form, typed nil pointers to all 15 kinds, untyped nil, foreign value / pointer / nil pointer, nil and "
           "non-nil pointers to the container the path addresses and to the root type), ReflectInspector.Get}, argument forms T, *T, "
-          "**T; mangled paths (garbage last / first segment out of 20 - empty, huge, unicode, nil, signs, bases, floats, 120 "
+          "**T; Set / SetWithBuffer with a source that is a CONTAINER OF THE PATH'S OWN TYPE (pointer to the struct / map / slice type "
+          "found after k segments: nil pointer, zero value - nil map, nil slice, zero struct -, empty, populated): every distinct "
+          "resolving path of >= 2 segments x every position below the root x the 4 kinds, so that the call continues INTO the "
+          "replacement, and every tenth (value, path) of any class with one kind per position (root and end of the path included); mangled paths (garbage last / first segment out of 20 - empty, huge, unicode, nil, signs, bases, floats, 120 "
           "bytes -, segments beyond the end of resolving paths and past looped collections); whole-value calls DeepEqual[WithOptions] "
           "(right operand in 8 forms), Copy, CopyTo (9 destinations incl. the source itself, nil pointers, by value, foreign), "
           "Reset, Unmarshal (15 inputs x 3 encodings), TypeName; nil-pointer-key and NaN-key maps; and every method on the hostile "
